@@ -1,6 +1,7 @@
 """Shared helpers for the fault / crash / signal checks (C02 C07 C08 C18): project builders, op phases, post-state oracle."""
 import os
 
+from . import ambient as ambient_mod
 from . import core, gen, trees
 from .decomp import decompose
 
@@ -11,7 +12,7 @@ ERRNO = {"EIO": 5, "ENOSPC": 28, "EACCES": 13, "EXDEV": 18, "EROFS": 30, "EMFILE
 class Project:
     """A small project description that can be materialised into any Box."""
 
-    def __init__(self, files, structured=False, use_cache=None, lock=None, extra=None, label="", hardlinks=None):
+    def __init__(self, files, structured=False, use_cache=None, lock=None, extra=None, label="", hardlinks=None, ambient=None):
         self.files = files            # rel -> bytes (in scope, .rs below src/)
         self.structured = structured
         self.use_cache = use_cache
@@ -19,6 +20,10 @@ class Project:
         self.extra = extra or {"README.md": b"# project\ninfo!(\"not source\")\n", "src/notes.txt": b"notes info!(\"x\")\n"}
         self.label = label
         self.hardlinks = hardlinks or {}   # source rel -> second name (outside source_dir) of the same inode
+        self.ambient = ambient             # vf.ambient state (permission bits, mtimes, stale lock scratch); siblings live in extra
+        if ambient and ambient.get("siblings"):
+            self.extra = dict(self.extra)
+            self.extra.update(ambient["siblings"])
 
     def materialise(self, box):
         for rel, d in self.files.items():
@@ -33,10 +38,12 @@ class Project:
         if self.lock is not None:
             with open(os.path.join(box.proj, "Breadlog.lock"), "w") as f:
                 f.write(self.lock)
+        if self.ambient:
+            ambient_mod.apply(box.proj, dict(self.ambient, siblings={}))
         return cfg
 
 
-def small_project(rnd, nfiles=3, stmts=(1, 4), structured=False, use_cache=None, lock=None, big=None, label=""):
+def small_project(rnd, nfiles=3, stmts=(1, 4), structured=False, use_cache=None, lock=None, big=None, label="", ambient_p=0.3, ambient_kind=None):
     files = {}
     for i in range(nfiles):
         eol = rnd.choice(["\n", "\n", "\r\n"])
@@ -74,7 +81,11 @@ def small_project(rnd, nfiles=3, stmts=(1, 4), structured=False, use_cache=None,
                 gf.raw("    // " + "-=" * rnd.randrange(20, 400) + eol)
             k += 1
         files["src/big.rs"] = gf.data()
-    return Project(files, structured=structured, use_cache=use_cache, lock=lock, label=label)
+    if ambient_kind:
+        amb = ambient_mod.choose(rnd, files, p=1.1, kinds=[ambient_kind])
+    else:
+        amb = ambient_mod.choose(rnd, files, p=ambient_p) if ambient_p else None
+    return Project(files, structured=structured, use_cache=use_cache, lock=lock, label=label, ambient=amb)
 
 
 def phase_of(op, box_root=None):
